@@ -2,6 +2,8 @@ import Verif.Model.JsStmt
 import Verif.Spec.JsGrammar
 import Verif.Proofs.JsMinSound
 import Verif.Proofs.JsMinMono
+import Verif.Proofs.JsStmtSound
+import Verif.Proofs.JsPrintGwf
 set_option linter.unusedSimpArgs false
 /-!
 # C01 — JS minification preserves program behaviour (partial: the fragment of `Spec.JsSyntax`)
@@ -10,7 +12,7 @@ Property theorems only.  Part A (printer and parentheses): facts about the regen
 -/
 namespace Verif.Props.C01
 open Verif.Spec.JsSyntax Verif.Spec.JsGrammar Verif.Spec.JsSem Verif.Model.JsAst Verif.Model.JsOpt Verif.Model.JsPrint
-open Verif.Proofs.JsMinSound
+open Verif.Proofs.JsMinSound Verif.Model.JsStmt Verif.Proofs.JsStmtSound
 
 /-! ## A.1 the regenerated tables against the grammar of ECMA-262 -/
 
@@ -46,6 +48,66 @@ theorem unary_tables (o : UOp) :
     o.prec = (if isUpdateOp o then lvUpdate else lvUnary) ∧
     o.argPrec = (if o = .postinc ∨ o = .postdec then lvLHS else lvUnary) := by
   cases o <;> decide
+
+/-! ## A.2 the printed tokens derive the printed tree
+
+`wfGo e`: every child of every node of `e` is a group or has (Go) precedence ≥ the (Go) precedence its position
+requires — the shape of the parser's output.  `printT` is the printer alone (group dropping iff `p ≤ prec inner`,
+literal lowering).  `DerivesA p ts t`: `t` is a derivation tree of the ECMA-262 expression grammar (`&&`, `||`, `??`
+read as associative, see `assoc_*`) from a nonterminal of level ≥ `p`, with terminal string `ts`. -/
+
+/-- the tokens the printer writes (`yield t`) derive its output tree `t`: every parenthesis that was dropped was
+    redundant, every literal lowering and print-time rewrite is grammatical in its context -/
+theorem print_derives (fuel : Nat) (e : E) (p : Prec) (t : E) (hp : p ≤ opCall)
+    (hw : Verif.Proofs.JsPrintGwf.wfGo e = true) (hf : Verif.Proofs.JsPrintGwf.FitsIn p e = true)
+    (h : printT fuel e p = some t) : DerivesA p (yield t) t := by
+  have hp' : p ≤ 17 := by
+    have : opCall = 17 := by decide
+    rw [this] at hp; exact hp
+  have inv := Verif.Proofs.JsPrintGwf.printT_gwf fuel e p t hp' hw h
+  exact ⟨inv.g, inv.lv hf, rfl⟩
+
+/-- the same for the parser's trees: `e` is any derivation tree of the (strict) ECMA-262 expression grammar — what
+    `js.Parse` produces — printed in a context whose level it has -/
+theorem print_derives_parsed (fuel : Nat) (e : E) (p : Prec) (t : E) (hp : p ≤ opCall)
+    (hg : gwf e = true) (hl : p ≤ lvl e) (h : printT fuel e p = some t) : DerivesA p (yield t) t :=
+  print_derives fuel e p t hp (Verif.Proofs.JsPrintGwf.gwf_wfGo e hg)
+    (Verif.Proofs.JsPrintGwf.fitsIn_of_lvl p e hl) h
+
+/-- assignment targets stay assignment targets -/
+theorem print_target (fuel : Nat) (e : E) (p : Prec) (t : E) (hp : p ≤ opCall)
+    (hw : Verif.Proofs.JsPrintGwf.wfGo e = true)
+    (h : printT fuel e p = some t) (ha : assignable e = true) : isTarget t = true := by
+  have hp' : p ≤ 17 := by
+    have : opCall = 17 := by decide
+    rw [this] at hp; exact hp
+  exact (Verif.Proofs.JsPrintGwf.printT_gwf fuel e p t hp' hw h).tg ha
+
+/-- reading `&&` as associative does not change the meaning: `a&&(b&&c)` and `(a&&b)&&c` behave alike -/
+theorem assoc_land (H : Host) (a b c : E) :
+    eval H (.bin .land a (.bin .land b c)) = eval H (.bin .land (.bin .land a b) c) := by
+  simp only [Verif.Proofs.JsSemLemmas.eval_land, Verif.Proofs.JsSemLemmas.bindM_assoc]
+  apply Verif.Proofs.JsSemLemmas.bindM_congr; intro v
+  by_cases hv : truthy v = true <;> simp [hv]
+
+theorem assoc_lor (H : Host) (a b c : E) :
+    eval H (.bin .lor a (.bin .lor b c)) = eval H (.bin .lor (.bin .lor a b) c) := by
+  simp only [Verif.Proofs.JsSemLemmas.eval_lor, Verif.Proofs.JsSemLemmas.bindM_assoc]
+  apply Verif.Proofs.JsSemLemmas.bindM_congr; intro v
+  by_cases hv : truthy v = true <;> simp [hv]
+
+theorem assoc_nullish (H : Host) (a b c : E) :
+    eval H (.bin .nullish a (.bin .nullish b c)) = eval H (.bin .nullish (.bin .nullish a b) c) := by
+  simp only [Verif.Proofs.JsSemLemmas.eval_nullish, Verif.Proofs.JsSemLemmas.bindM_assoc]
+  apply Verif.Proofs.JsSemLemmas.bindM_congr; intro v
+  by_cases hv : isNullish v = true <;> simp [hv]
+
+example : Verif.Proofs.JsPrintGwf.wfGo (.bin .bor (.bin .bor (.var "a") (.var "b")) (.var "c")) = true := by rfl
+
+example : Verif.Proofs.JsPrintGwf.wfGo (.bin .mul (.group (.bin .add (.var "a") (.var "b"))) (.var "c")) = true ∧
+    printT 9 (.bin .mul (.group (.bin .add (.var "a") (.var "b"))) (.var "c")) 1
+      = some (.bin .mul (.group (.bin .add (.var "a") (.var "b"))) (.var "c")) := by
+  constructor <;> rfl
 
 /-! ## B. the expression rewrites preserve behaviour
 
@@ -132,5 +194,61 @@ theorem printer_sound (H : Host) (hH : HostOk H) (fuel : Nat) (e : E) (p : Prec)
 
 example : minEG true 40 (.cond (.var "a") (.lit .true) (.lit .false)) 1 = some (.unary .not (.unary .not (.var "a"))) := by
   rfl
+
+/-! ## C. statement lists
+
+`execL H l` runs a statement list (completion: normal / return v / throw, plus final globals and host trace);
+`execFn H l` is the result of calling a function whose body is `l`. -/
+
+/-- `optimizeStmt`: if → `&&` / `||` / `?:` expression statements, `if(a)return b;else return c → return a?b:c`,
+    throw merging, `if(!a)b;else c → if(a)c;else b`, nested `if(a)if(b)c → if(a&&b)c`, block flattening -/
+theorem optStmt_sound (H : Host) (fuel : Nat) (s : S) : exec H (optStmt fuel s) = exec H s :=
+  Verif.Proofs.JsStmtSound.optStmt_sound fuel s
+
+/-- `optimizeStmtList` on a block / program part (`defaultBlock`): else removal after return/throw, comma merging
+    of expression statements into the following expression / return / throw / if, `MergeIfReturnThrow`, removal of
+    empty statements — for every list, every fuel, every host -/
+theorem stmts_sound_block (H : Host) (fuel : Nat) (l : List S) :
+    execL H (optStmtList fuel l .default) = execL H l :=
+  optStmtList_default_sound fuel l
+
+/-- full statement for function bodies (`functionBlock`: additionally the trailing `return` is removed) -/
+def stmts_sound_full : Prop :=
+  ∀ (H : Host) (fuel : Nat) (l : List S), execFn H (optStmtList fuel l .function) = execFn H l
+
+/-- partial theorem: true unless the merged list ends in `return a,b,…,undefined` with ≥ 3 items (K-C01-1) -/
+theorem stmts_sound_partial (H : Host) (fuel : Nat) (l : List S)
+    (g : k1Trigger (optLoop (fuel - 1) [] l) = false) : execFn H (optStmtList fuel l .function) = execFn H l :=
+  optStmtList_function_sound fuel l g
+
+/-- witness of K-C01-1: the body of `function t(p){f();p=1;return undefined}` -/
+def k1Body : List S :=
+  [.expr (.call (.var "f") []), .expr (.bin .assign (.var "p") (.lit (.num 1))), .ret (some (.var "undefined"))]
+
+def valOf : Out Val → Option Val
+  | .ok v _ => some v
+  | .thr _ _ => none
+
+/-- the full statement is false on the unchanged tree: the function returns 1 instead of `undefined` -/
+theorem stmts_sound_counterexample : ¬ stmts_sound_full := by
+  intro h
+  have h1 := h quietHost 20 k1Body
+  have hopt : optStmtList 20 k1Body .function =
+      [.ret (some (.comma [.call (.var "f") [], .bin .assign (.var "p") (.lit (.num 1))]))] := by rfl
+  rw [hopt] at h1
+  have h2 : valOf (execFn quietHost [.ret (some (.comma [.call (.var "f") [], .bin .assign (.var "p") (.lit (.num 1))]))] k2State)
+      = valOf (execFn quietHost k1Body k2State) := by rw [h1]
+  have ha : valOf (execFn quietHost [.ret (some (.comma [.call (.var "f") [], .bin .assign (.var "p") (.lit (.num 1))]))] k2State)
+      = some (.num 1) := by
+    simp [execFn, execL, exec, eval, evalL, lref, bindM, retM, getVar, putVar, lookup, hostEv, quietHost, k2State, valOf,
+      putRef, andThen]
+  have hb : valOf (execFn quietHost k1Body k2State) = some .undef := by
+    simp [k1Body, execFn, execL, exec, eval, evalL, lref, bindM, retM, getVar, putVar, lookup, hostEv, quietHost,
+      k2State, valOf, putRef, andThen]
+  rw [ha, hb] at h2
+  simp at h2
+
+example : k1Trigger (optLoop 19 [] k1Body) = true := by rfl
+example : k1Trigger (optLoop 19 [] [.expr (.call (.var "f") []), .ret (some (.var "a"))]) = false := by rfl
 
 end Verif.Props.C01
